@@ -472,7 +472,7 @@ def _b_worker(args):
                     if len(out['candidates']) < 40: out['candidates'].append({'obligation': name, 'words': ws, 'kinds': [k for _, k, _ in E.nondet], 'decisions': list(E.decisions)})
                 if len(out['samples']) < 6: out['samples'].append({'path_decisions': ''.join('T' if d else 'F' for d in E.decisions)[:80], 'obligation': name, 'verdict': verdict, 'solver_s': round(dt, 4)})
         from fractions import Fraction
-        st = irz.explore(m, '@' + h.entry, lambda: (irz.RealFP() if (h.real_model or force_real) else irz.SymFP(monotone=h.monotone, exact_add=h.exact_add, strict=h.strict)), on_path=on_path, tie_free=h.tie_free, stubs=h.stubs,
+        st = irz.explore(m, '@' + h.entry, lambda: (irz.RealFP(abs_uf=getattr(h, 'abs_uf', False)) if (h.real_model or force_real) else irz.SymFP(monotone=h.monotone, exact_add=h.exact_add, strict=h.strict)), on_path=on_path, tie_free=h.tie_free, stubs=h.stubs,
                          maxpaths=h.maxpaths, maxsteps=h.maxsteps, timeout=h.timeout, solver_timeout_ms=h.solver_timeout_ms,
                          initial_work=initial_work, stop_when_pending=(h.split * 6 if seeding else None), log_stores=h.log_stores)
         out['queries'] = st['queries'] + out['obl']; out['infeasible'] = st['infeasible']; out['remaining'] = st['remaining']
